@@ -84,6 +84,62 @@ func verifC20WritePcap(dir, name string, rng *rand.Rand, base time.Time) error {
 	return nil
 }
 
+// Second conversion pass over streams that are cached already: import 12 streams (ids in one
+// 64-bit word), attach the working converter to a tag that matches them, wait for the conversion,
+// import 12 more: the tag is evaluated again and ALL its matches are queued for the converter, the
+// first 12 are in its cache.  All waits are bounded and never fatal.
+func verifC20Reconvert(mgr *Manager, pcapDir string, base time.Time) {
+	events, closeEvents := mgr.Listen()
+	defer closeEvents()
+	waitFor := func(eventType string, limit time.Duration) bool {
+		watchdog := time.After(limit)
+		for {
+			select {
+			case e, ok := <-events:
+				if !ok {
+					return false
+				}
+				if e.Type == eventType {
+					return true
+				}
+			case <-watchdog:
+				return false
+			}
+		}
+	}
+	importStreams := func(name string, first int) bool {
+		f, err := os.Create(filepath.Join(pcapDir, name))
+		if err != nil {
+			return false
+		}
+		w := pcapgo.NewWriter(f)
+		_ = w.WriteFileHeader(0xffff, layers.LinkTypeIPv4)
+		for i := first; i < first+12; i++ {
+			ci, d := verifC20UDP(3000+i, 4321, base.Add(time.Duration(i)*time.Second), fmt.Sprintf("payload %d foo", i))
+			_ = w.WritePacket(ci, d)
+		}
+		f.Close()
+		mgr.ImportPcaps([]string{name})
+		return waitFor("pcapProcessed", 30*time.Second)
+	}
+	if !importStreams("verif-pro-1.pcap", 0) {
+		return
+	}
+	if mgr.AddTag("tag/conv", "#123456", "sport:4321") != nil {
+		return
+	}
+	if mgr.UpdateTag("tag/conv", UpdateTagOperationSetConverter([]string{"conv_ok"})) != nil {
+		return
+	}
+	if !waitFor("converterCompleted", 60*time.Second) {
+		return
+	}
+	if !importStreams("verif-pro-2.pcap", 12) {
+		return
+	}
+	waitFor("converterCompleted", 60*time.Second)
+}
+
 func TestVerifC20(t *testing.T) {
 	if os.Getenv("VERIF_C20") == "" {
 		t.Skip("no VERIF_C20")
@@ -169,6 +225,8 @@ func verifC20Round(t *testing.T, seed int64, workers, ops int) {
 	if err != nil {
 		t.Fatal(err)
 	}
+
+	verifC20Reconvert(mgr, d["pcap"], time.Date(2020, 1, 1, 9, 0, 0, 0, time.UTC))
 
 	// pcap-over-ip source
 	ln, err := net.Listen("tcp", "127.0.0.1:0")
